@@ -45,8 +45,12 @@ def invariance_task(args):
         mm = []
         for t, m in enumerate(masks, start=1):
             grads = [realopt.make_grad(draw, 0, pi, t, shp) if m[pi] else None for pi, shp in enumerate(g["shapes"])]
+            swap = draw["seed"] % 2 == 0          # half of the runs keep the .grad object and replace its storage (p.grad.data = g)
             for p, gr in zip(a_params[0], grads):
-                p.grad = None if gr is None else gr.clone()
+                if swap and gr is not None and p.grad is not None:
+                    p.grad.data = gr.clone()
+                else:
+                    p.grad = None if gr is None else gr.clone()
             for bp, (pi, merged, sl) in zip(b_params, where):
                 bp.grad = None if grads[pi] is None else grads[pi].view(merged)[sl].clone().contiguous()
             a_opt.step()
